@@ -313,10 +313,13 @@ fn check_interrupt_points(t: &mut Tape, ctx: &Ctx) -> Outcome {
     let mut tried = 0;
     // looking at variables between the break and CONT, including a mistyped line that is refused
     // at compile time and therefore executes nothing
-    let inspect = match t.below(6) {
+    // (an over-long line is refused as a whole by the line buffer and executes nothing either)
+    let too_long = format!("PRINT A{}", ";A".repeat(520));
+    let inspect = match t.below(7) {
         0 | 1 => Some("PRINT A;B%;A$;I"),
         2 => Some("PRINT A+"),
         3 => Some("PRINT A;:GOTO 64999"),
+        4 => Some(too_long.as_str()),
         _ => None,
     };
     for k in ks {
